@@ -20,6 +20,7 @@ fn cfg_for(thorough : bool, clock : Clock) -> HistCfg
     c.clock = clock;
     c.random_sched_pct = 0;
     c.motif_pct = 45;
+    c.travel_bias = true;
     // operations whose concrete effect depends on listing ruler's directory are left out so that both runs
     // perform literally the same user actions
     c.weights[hist::W_DELETE_CACHE_ENTRY] = 0;
